@@ -22,7 +22,7 @@ REQUIRE = {"calls-on-a-definition-used-before": 20000, "definitions-used-before-
 
 KINDS = ["QUBIT", "REGISTER", "INT", "FLOAT", "NONE"]
 VALUE_CLASSES = ["qubit", "register", "int", "intfloat", "float", "constI", "constFint", "constF", "pQ", "pR", "pI", "pF", "pN",
-                 "inf", "nan", "hugefloat", "constFinf"]
+                 "inf", "nan", "hugefloat", "constFinf", "npint", "npfloat", "npintfloat"]
 
 
 def make_values():
@@ -36,6 +36,8 @@ def make_values():
         "pF": Parameter("pf", ParamType.FLOAT), "pN": Parameter("pn", None),
         # non-finite floats are no integers; a huge finite float is integral
         "inf": float("-inf"), "nan": float("nan"), "hugefloat": 1e300, "constFinf": Constant("cinf", float("inf")),
+        # numbers as numpy delivers them: the same integers and floats
+        "npint": __import__("numpy").int64(3), "npfloat": __import__("numpy").float64(0.25), "npintfloat": __import__("numpy").float32(2.0),
     }
 
 
@@ -50,11 +52,11 @@ def fits(kind, vc):
     if kind == "INT":
         if vc == "pF":
             return None
-        return vc in ("int", "intfloat", "hugefloat", "constI", "constFint", "pI", "pN")
+        return vc in ("int", "intfloat", "hugefloat", "constI", "constFint", "pI", "pN", "npint", "npintfloat")
     if kind == "FLOAT":
         if vc in ("inf", "nan", "constFinf"):
             return None  # floats, but not finite numbers: the statement does not say
-        return vc in ("int", "intfloat", "hugefloat", "float", "constI", "constFint", "constF", "pI", "pF", "pN")
+        return vc in ("int", "intfloat", "hugefloat", "float", "constI", "constFint", "constF", "pI", "pF", "pN", "npint", "npfloat", "npintfloat")
     raise ValueError(kind)
 
 
